@@ -155,3 +155,54 @@ Fixpoint joint_trace (written : Z) (l : list fstep) : bool :=
   end.
 
 Definition c06_joint_ok (cfg : vconfig) (l : list fstep) : bool := joint_trace 0 l.
+
+(* ---- "unless a timeout recovery is already in progress": the phase in which duplicate ACKs are ignored
+   (entered by an RTO that hits during fast recovery) ENDS with the acknowledgement that reaches the recovery
+   point.  Trace level: `pending` = headers delivered since the last poll that drained the inbox. ---- *)
+Definition near_z (tol x ref : Z) : bool :=
+  let d := (x - ref) mod M16 in (d <=? tol) || (M16 - tol <=? d).
+
+Definition reaches_rp (rp : Z) (h : chdr) : bool :=
+  match ch_type h with
+  | ST_DATA | ST_STATE => seq_le rp (ch_ack h)
+  | _ => false
+  end.
+
+Definition rp_exit_poll_ok (pending : list chdr) (st : fstep) : bool :=
+  let pre := fs_pre st in
+  let post := fs_post st in
+  match f_recovery pre, f_state pre, f_state post with
+  | IgnoringUntilRecoveryPoint rp, Established, Established =>
+      if existsb (reaches_rp rp) pending &&
+         (* all of the pending messages are plausible peers' packets: ack numbers near our numbering *)
+         forallb (fun h => near_z 256 (ch_ack h) (f_snd_una pre)) pending &&
+         negb (timer_expired (f_t_retransmit pre) (fs_now st)) && tol_ok pre
+      then match f_recovery post with
+           | IgnoringUntilRecoveryPoint rp' => negb (rp' =? rp)
+           | _ => true
+           end
+      else true
+  | _, _, _ => true
+  end.
+
+Fixpoint rp_exit_scan (tr : list fstep) (pending : option (list chdr)) : bool :=
+  match tr with
+  | [] => true
+  | st :: r =>
+      match fs_event st with
+      | FeDeliver h _ =>
+          rp_exit_scan r (match pending with Some l => Some (l ++ [h]) | None => None end)
+      | FeCloseInbox => rp_exit_scan r None
+      | FePoll _ =>
+          (match pending, fs_result st with
+           | Some l, FrPoll PollPending _ _ _ =>
+               if f_transport_pending (fs_post st) then true else rp_exit_poll_ok l st
+           | _, _ => true
+           end) &&
+          rp_exit_scan r (if f_transport_pending (fs_post st) then None
+                          else match pending with Some _ => Some [] | None => None end)
+      | _ => rp_exit_scan r pending
+      end
+  end.
+
+Definition c06_rp_exit_ok (cfg : vconfig) (tr : list fstep) : bool := rp_exit_scan tr (Some []).
